@@ -176,5 +176,10 @@ theorem unifyLaws_std (base : Env) : UnifyLaws (Env.std base) where
     simp only [unifyTy, fuelFor, tyDepthL_replicate t ts.length hn]
     exact unifyTyF_same _ uns t ts.length (by omega) hn hw ho
 
+/-- the set parameters of `Env.simple` are untouched by `Env.std` -/
+theorem setLaws_simple_std : SetLaws (Env.std Env.simple) where
+  hash_ok := fun t p => setLaws_simple.hash_ok t p
+  equiv_ok := fun t a b => setLaws_simple.equiv_ok t a b
+
 end Unify
 end CtyModel
